@@ -1,11 +1,12 @@
 #!/bin/sh
 # runs every seed through the check of its own property; prints one line per seed
 cd /verif
+SEEDS=${1:-/tmp/seed}   # /tmp/seed (round 1, rebased patches in /tmp/seedfix), /tmp/seed2, /tmp/seed3
 for P in C01 C02 C03 C04 C05 C06 C07 C08 C09 C10 C11 C12 C13 C14 C15 C16 C17 C19 C20; do
   for i in 1 2; do
-    patch=/tmp/seed/$P/_seed/$i/patch.diff
-    [ -f /tmp/seedfix/${P}_$i/patch.diff ] && patch=/tmp/seedfix/${P}_$i/patch.diff
-    [ -f $patch ] || { echo "$P/$i: NO PATCH"; continue; }
+    patch=$SEEDS/$P/_seed/$i/patch.diff
+    [ "$SEEDS" = /tmp/seed ] && [ -f /tmp/seedfix/${P}_$i/patch.diff ] && patch=/tmp/seedfix/${P}_$i/patch.diff
+    [ -f $patch ] || continue
     out=$(tools/try_seed.sh $patch $P 2>&1)
     if echo "$out" | grep -q "PATCH DOES NOT APPLY"; then echo "$P/$i: NEEDS-REBASE"; continue; fi
     nv=$(echo "$out" | grep -c "^VIOLATION")
